@@ -15,14 +15,14 @@ package selection
 //@   requires [chain] len(depChain) >= 1
 //@   modifies heap("H$S$model.Target$IsSelected"), heap("H$S$model.Alias$IsSelected")
 //@   ensures [closure] err == nil ==> (forall a model.BuildNode :: {reach(graph, a, node)} reach(graph, a, node) ==> isSel(a))
-//@   ensures [monotone] forall a model.BuildNode :: isNode(a) && old(isSel(a)) ==> isSel(a)
+//@   ensures [monotone] forall a model.BuildNode :: old(isSel(a)) ==> isSel(a)
 //@   ensures [only_ancestors] forall a model.BuildNode :: {reach(graph, a, node)} isNode(a) && isSel(a) && !old(isSel(a)) ==> reach(graph, a, node)
 //@   ensures [compatible_or_error] err == nil ==> (forall a model.BuildNode :: {reach(graph, a, node)} reach(graph, a, node) ==> platformOK(a))
 //@ loop #1
 //@   invariant [deps_are_edges] forall j int :: {ranged()[j]} 0 <= j && j < len(ranged()) ==> edge(graph, ranged()[j], node)
 //@   invariant [done_so_far] forall j int :: 0 <= j && j <= rangeindex ==> isSel(ranged()[j]) && platformOK(ranged()[j]) &&
 //@        (forall a model.BuildNode :: {reach(graph, a, ranged()[j])} reach(graph, a, ranged()[j]) ==> isSel(a) && platformOK(a))
-//@   invariant [monotone] forall a model.BuildNode :: isNode(a) && old(isSel(a)) ==> isSel(a)
+//@   invariant [monotone] forall a model.BuildNode :: old(isSel(a)) ==> isSel(a)
 //@   invariant [only_ancestors] forall a model.BuildNode :: {reach(graph, a, node)} isNode(a) && isSel(a) && !old(isSel(a)) ==> reach(graph, a, node)
 
 // ---- filters: each predicate is proved equivalent to a first-order formula over patterns and tags ------------------
@@ -77,19 +77,24 @@ package selection
 //@   modifies heap("H$S$model.Target$IsSelected"), heap("H$S$model.Alias$IsSelected")
 //@   ensures [only_matches_and_their_dependencies] err == nil ==> (forall a model.BuildNode :: isNode(a) && isSel(a) && !old(isSel(a)) ==>
 //@        (matchesFilters(s, a) && platformOK(a)) ||
-//@        (exists k label.TargetLabel :: has(graph.nodes, k) && matchesFilters(s, graph.nodes[k]) && platformOK(graph.nodes[k]) && reach(graph, a, graph.nodes[k])))
-//@   ensures [matches_and_dependencies_selected] err == nil ==> (forall k label.TargetLabel :: has(graph.nodes, k) && matchesFilters(s, graph.nodes[k]) && platformOK(graph.nodes[k]) ==>
-//@        isSel(graph.nodes[k]) && (forall a model.BuildNode :: {reach(graph, a, graph.nodes[k])} reach(graph, a, graph.nodes[k]) ==> isSel(a) && platformOK(a)))
+//@        (exists k label.TargetLabel :: has(graph.nodes, k) && matchesFilters(s, nodeAt(graph, k)) && platformOK(nodeAt(graph, k)) && reach(graph, a, nodeAt(graph, k))))
+//@   ensures [matches_selected] err == nil ==> (forall k label.TargetLabel :: {has(graph.nodes, k)} has(graph.nodes, k) && matchesFilters(s, nodeAt(graph, k)) && platformOK(nodeAt(graph, k)) ==> isSel(nodeAt(graph, k)))
+//@   ensures [dependencies_of_matches_selected] err == nil ==> (forall k label.TargetLabel, a model.BuildNode :: {reach(graph, a, nodeAt(graph, k))}
+//@        has(graph.nodes, k) && matchesFilters(s, nodeAt(graph, k)) && platformOK(nodeAt(graph, k)) && reach(graph, a, nodeAt(graph, k)) ==> isSel(a) && platformOK(a))
 //@ loop #1
 //@   invariant [only_matches_and_their_dependencies] forall a model.BuildNode :: isNode(a) && isSel(a) && !old(isSel(a)) ==>
 //@        (matchesFilters(s, a) && platformOK(a)) ||
-//@        (exists k label.TargetLabel :: has(graph.nodes, k) && matchesFilters(s, graph.nodes[k]) && platformOK(graph.nodes[k]) && reach(graph, a, graph.nodes[k]))
-//@   invariant [seen_matches_selected] forall k label.TargetLabel :: seen(k) && has(graph.nodes, k) && matchesFilters(s, graph.nodes[k]) && platformOK(graph.nodes[k]) ==>
-//@        isSel(graph.nodes[k]) && (forall a model.BuildNode :: {reach(graph, a, graph.nodes[k])} reach(graph, a, graph.nodes[k]) ==> isSel(a) && platformOK(a))
-//@   invariant [monotone] forall a model.BuildNode :: isNode(a) && old(isSel(a)) ==> isSel(a)
+//@        (exists k label.TargetLabel :: has(graph.nodes, k) && matchesFilters(s, nodeAt(graph, k)) && platformOK(nodeAt(graph, k)) && reach(graph, a, nodeAt(graph, k)))
+//@   invariant [seen_matches_selected] forall k label.TargetLabel :: {seen(k)} seen(k) && has(graph.nodes, k) && matchesFilters(s, nodeAt(graph, k)) && platformOK(nodeAt(graph, k)) ==> isSel(nodeAt(graph, k))
+//@   invariant [seen_dependencies_selected] forall k label.TargetLabel, a model.BuildNode :: {reach(graph, a, nodeAt(graph, k))}
+//@        seen(k) && has(graph.nodes, k) && matchesFilters(s, nodeAt(graph, k)) && platformOK(nodeAt(graph, k)) && reach(graph, a, nodeAt(graph, k)) ==> isSel(a) && platformOK(a)
+//@   invariant [monotone] forall a model.BuildNode :: old(isSel(a)) ==> isSel(a)
 
 // query selection (grog list etc.): exactly the filter and platform matches
 //@ func (*Selector).SelectTargets(s, graph) ()
 //@   requires [wf] nodesWF(graph)
 //@   modifies heap("H$S$model.Target$IsSelected"), heap("H$S$model.Alias$IsSelected")
-//@   ensures [exactly_matches] forall k label.TargetLabel :: has(graph.nodes, k) && !old(isSel(graph.nodes[k])) ==> (isSel(graph.nodes[k]) <==> matchesFilters(s, graph.nodes[k]) && platformOK(graph.nodes[k]))
+//@   ensures [exactly_matches] forall k label.TargetLabel :: {has(graph.nodes, k)} has(graph.nodes, k) && !old(isSel(nodeAt(graph, k))) ==> (isSel(nodeAt(graph, k)) <==> matchesFilters(s, nodeAt(graph, k)) && platformOK(nodeAt(graph, k)))
+//@ loop #1
+//@   invariant [seen_exact] forall k label.TargetLabel :: {has(graph.nodes, k)} seen(k) && has(graph.nodes, k) && !old(isSel(nodeAt(graph, k))) ==> (isSel(nodeAt(graph, k)) <==> matchesFilters(s, nodeAt(graph, k)) && platformOK(nodeAt(graph, k)))
+//@   invariant [unseen_untouched] forall k label.TargetLabel :: {has(graph.nodes, k)} !seen(k) && has(graph.nodes, k) ==> isSel(nodeAt(graph, k)) == old(isSel(nodeAt(graph, k)))
